@@ -428,7 +428,7 @@ End Loc.
 Definition safe_opT (tch : Z -> bool) (rb : list op) (din dout : db) (o : op) : bool :=
   match o with
   | OAdd w status t n init slot => ((t <? 0) || (tch t && loc_ok t)) && cleans rb status
-  | OExpand mode t => expand_noop t din dout && negb (tch t)
+  | OExpand mode t _ => expand_noop t din dout && negb (tch t)
   | OClean _ => true
   | OBody _ => true
   | _ => false
@@ -457,9 +457,9 @@ Proof.
 Qed.
 
 Lemma expand_noop_sameT t s : TrackedT tch rb din dout s -> expand_noop t din dout = true -> tch t = false ->
-  forall mode, expand_information mode t s = (true, s).
+  forall mode reg, expand_information mode t reg s = (true, s).
 Proof.
-  intros [Ha [[exi [_ [_ [_ [Hli _]]]]] [[exo [_ [_ [_ [Hlo [_ [_ [Hgo [Hdo _]]]]]]]]] _]]] He Ht mode.
+  intros [Ha [[exi [_ [_ [_ [Hli _]]]]] [[exo [_ [_ [_ [Hlo [_ [_ [Hgo [Hdo _]]]]]]]]] _]]] He Ht mode reg.
   unfold expand_information, getdb. rewrite Ha.
   unfold expand_noop in He. unfold ndim, locnum in *.
   rewrite (Hlo t Ht), (Hlo L_X HtX), (Hli t Ht), Hgo, Hdo.
@@ -599,6 +599,7 @@ End RunT.
 Theorem atomic_touched (c : calc) (tch : Z -> bool) (din dout : db) (fs : Z) (fk : nat) (s' : st) :
   Inv din -> Inv dout -> tch L_X = false ->
   (forall t, tch t = true -> getloc (d_locs din) t = []) -> (forall t, tch t = true -> getloc (d_locs dout) t = []) ->
+  k_init c = [] ->
   forallb (safe_opT tch (k_rollback c) din dout) (k_pre c) = true ->
   forallb (safe_opT tch (k_rollback c) din dout) (k_run c) = true ->
   forallb only_clean (k_rollback c) = true ->
@@ -607,9 +608,9 @@ Theorem atomic_touched (c : calc) (tch : Z -> bool) (din dout : db) (fs : Z) (fk
   calc_run c (init_st din dout false) fs fk = (false, s') ->
   (db_eq (s_in s') din /\ Inv (s_in s')) /\ (db_eq (s_out s') dout /\ Inv (s_out s')).
 Proof.
-  intros HIi HIo HtX Hti Hto Hpre Hbody Hrb Hpost Hfs Hrun.
+  intros HIi HIo HtX Hti Hto Hk Hpre Hbody Hrb Hpost Hfs Hrun.
   pose proof (TrackedT_init din dout HIi HIo tch Hti Hto (k_rollback c)) as T0.
-  unfold calc_run in Hrun.
+  unfold calc_run in Hrun. rewrite Hk in Hrun. cbn [exec_quiet] in Hrun.
   set (RB := fun s => rollback_restoresT din dout HIi HIo tch HtX Hti Hto (k_rollback c) (k_nc c) s) in *.
   destruct (negb (k_check c (init_st din dout false))).
   { inversion Hrun; subst. apply RB; assumption. }
